@@ -24,6 +24,8 @@ import (
 	"verifmc/node"
 	"verifmc/vclock"
 	"verifmc/vtask"
+
+	"github.com/LemoFoundationLtd/lemochain-core/common/log"
 )
 
 // ---------------------------------------------------------------------------------------------
@@ -491,6 +493,9 @@ func workerMain() {
 	w := buildWorld()
 	setPolicy()
 	E = newEnv(w)
+	if os.Getenv("C15_LOG") != "" {
+		log.Setup(log.LevelDebug, false, true) // development: the code under test talks on stderr
+	}
 	fams := families(w)
 	byName := map[string]*Family{}
 	for _, f := range fams {
@@ -597,7 +602,7 @@ func runChunk(f *Family, cmd command) *reply {
 			rep.Restores["node-rebuilt-after-abort:"+f.Name]++
 		} else if r.Alloc > allocBound(r.Input) {
 			key += "/ALLOC"
-			rep.Violations = appendV(rep.Violations, violation{FP: fmt.Sprintf("C15/alloc/%s/%s", f.Name, allocClass(r.Outcome)), What: fmt.Sprintf("case %s: %d bytes received, %d bytes allocated (bound %d)", c.Name, r.Input, r.Alloc, allocBound(r.Input)), Case: c.Name, Fam: f.Name, Kind: "alloc", Detail: map[string]interface{}{"input": r.Input, "alloc": r.Alloc}})
+			rep.Violations = appendV(rep.Violations, violation{FP: fmt.Sprintf("C15/alloc/%s", f.Name), What: fmt.Sprintf("case %s: %d bytes received, %d bytes allocated (bound %d)", c.Name, r.Input, r.Alloc, allocBound(r.Input)), Case: c.Name, Fam: f.Name, Kind: "alloc", Detail: map[string]interface{}{"input": r.Input, "alloc": r.Alloc}})
 		}
 		rep.Outcomes[key]++
 		if r.Alloc > rep.MaxAlloc && r.Alloc <= allocBound(r.Input) {
